@@ -125,3 +125,194 @@ Proof.
   destruct (ws_slices_sound _ Hwf) as [sl [Hs [E5 E4]]]. exists sl. split; [exact Hs|].
   rewrite E5, E4. exact (same_bytes_history H ops cm before t Hl Hok Hprior Hbuild).
 Qed.
+
+(* ================================================================== containers of delimited items are delimited *)
+
+(* an item delimited by skip_item parses the same way at every fuel larger than the input *)
+Lemma delim_parse v : delim v -> exists it, forall f rest, (length (v ++ rest) < f)%nat -> parse_item f (v ++ rest) = Ok (it, rest).
+Proof.
+  intros Hd. pose proof (Hd []) as H0. apply skip_item_parse in H0 as [it [H0 _]].
+  exists it. intros f rest Hf.
+  assert (Hp : parse_one (v ++ rest) = Ok (it, rest)) by (apply (parse_one_local _ [] rest), H0).
+  rewrite (parse_item_default f (v ++ rest)); [exact Hp|]. apply parse_item_fuel_enough, Hf.
+Qed.
+
+Lemma parse_n_fields f fs : Forall field_ok fs -> forall rest, (length (flat_fields fs ++ rest) < f)%nat ->
+  exists kvs, parse_n (parse_pair (parse_item f)) (length fs) (flat_fields fs ++ rest) = Ok (kvs, rest).
+Proof.
+  induction 1 as [|[k v] t [Hk Hv] _ IH]; intros rest Hf; [exists []; reflexivity|].
+  cbn [flat_fields flat_map fst snd length parse_n] in *. fold (flat_fields t) in *.
+  destruct (delim_parse _ (delim_uint k Hk)) as [ik Pk]. destruct (delim_parse _ Hv) as [iv Pv].
+  rewrite <- !app_assoc in *. unfold parse_pair at 1.
+  rewrite Pk by exact Hf. cbn [bind].
+  rewrite Pv by (rewrite !app_length in *; lia). cbn [bind].
+  destruct (IH rest) as [kvs Hkvs]; [rewrite !app_length in *; lia|].
+  rewrite Hkvs. cbn [bind]. eexists. reflexivity.
+Qed.
+
+(* a definite-length map of delimited fields is itself delimited *)
+Theorem delim_enc_fields fs : Forall field_ok fs -> len fs < two64 -> delim (enc_fields fs).
+Proof.
+  intros Hf Hl rest. apply skip_item_parse.
+  unfold enc_fields. fold (flat_fields fs). rewrite <- app_assoc.
+  set (bs := encode_head 5 (len fs) ++ flat_fields fs ++ rest).
+  assert (Hd : decode_head bs = Some (5, Arg (len fs), flat_fields fs ++ rest)) by (apply decode_encode_head, Hl).
+  unfold parse_one, default_fuel. cbn [parse_item]. rewrite (parse_body_head _ _ _ _ _ Hd).
+  unfold parse_after. cbn [major_of].
+  assert (Hg : (len fs <=? len (flat_fields fs ++ rest)) = true).
+  { apply N.leb_le. unfold len. rewrite app_length. pose proof (flat_fields_length fs Hf). lia. }
+  rewrite Hg. replace (N.to_nat (len fs)) with (length fs) by (unfold len; lia).
+  assert (Hlen : (length (flat_fields fs ++ rest) < length bs)%nat).
+  { apply decode_head_shorter in Hd. exact Hd. }
+  destruct (parse_n_fields (length bs) fs Hf rest Hlen) as [kvs Hk]. rewrite Hk. cbn [bind].
+  eexists. split; [reflexivity|]. subst bs. reflexivity.
+Qed.
+
+(* ================================================================== the serialised transaction *)
+
+(* [ body, witness_set, true, auxiliary_data / null ]; the body is a definite-length map whose fields 7 (auxiliary
+   data hash) and 11 (script data hash) are the ones of the model and whose other fields are given, in any order *)
+Definition hash_field (h : bytes) : bytes := [88; 32] ++ h.
+Definition body_fields (other : list (N * bytes)) (t : tx) : list (N * bytes) :=
+  other ++
+  (match tx_aux_data_hash t with Some h => [(7, hash_field h)] | None => [] end) ++
+  (match tx_script_data_hash t with Some h => [(11, hash_field h)] | None => [] end).
+Definition tx_bytes (other : list (N * bytes)) (t : tx) : bytes :=
+  [132] ++ enc_fields (body_fields other t) ++ ws_bytes (tx_witness_set t) ++ [245] ++
+  (match tx_aux t with Some a => enc_aux a | None => [246] end).
+
+Definition hash_ok (o : option bytes) : Prop :=
+  match o with Some h => length h = 32%nat /\ bytes_ok h | None => True end.
+Definition other_ok (other : list (N * bytes)) : Prop :=
+  Forall (fun kv => fst kv < two64 /\ fst kv <> 7 /\ fst kv <> 11 /\ item_wf (snd kv) = true) other.
+
+Lemma delim_hash_field h : length h = 32%nat -> bytes_ok h -> delim (hash_field h).
+Proof.
+  intros Hl Hok rest. unfold hash_field.
+  assert (E : [88; 32] ++ h = encode_item (IBytes h)).
+  { cbn [encode_item]. unfold len. rewrite Hl. reflexivity. }
+  rewrite E. apply skip_item_encode. cbn [item_ok]. unfold chunk_ok.
+  rewrite (bytes_ok_okb _ Hok). unfold len. rewrite Hl. reflexivity.
+Qed.
+
+Lemma hash32_payload_field h : length h = 32%nat -> hash32_payload (hash_field h) = Some h.
+Proof. intros Hl. unfold hash_field, hash32_payload. cbn [app]. unfold len. rewrite Hl. reflexivity. Qed.
+
+Lemma assoc_app_none k (a b : list (N * bytes)) : assoc_field k a = None -> assoc_field k (a ++ b) = assoc_field k b.
+Proof.
+  induction a as [|[k' v] t IH]; [reflexivity|]. cbn [assoc_field app]. destruct (k' =? k); [discriminate|]. exact IH.
+Qed.
+
+Lemma other_no_key other k : other_ok other -> (k = 7 \/ k = 11) -> assoc_field k other = None.
+Proof.
+  intros Ho Hk. induction Ho as [|[k' v] t [_ [H7 [H11 _]]] _ IH]; [reflexivity|].
+  cbn [assoc_field fst] in *. destruct (k' =? k) eqn:E; [apply N.eqb_eq in E; destruct Hk; congruence|]. exact IH.
+Qed.
+
+Lemma enc_aux_not_null a : enc_aux a <> [246].
+Proof.
+  unfold enc_aux.
+  destruct (negb (a_prefer_alonzo a)), (a_metadata a) as [md|], (a_plutus a) as [pl|];
+    try (change (encode_head 6 259) with [217; 1; 3]; cbn [app]; discriminate).
+  destruct (a_native a) as [ns|].
+  - cbn [app]. discriminate.
+  - unfold enc_metadata. destruct (map_head_first (len md)) as [b [r [E Hb]]]. rewrite E. cbn [app].
+    intros Heq. injection Heq as Hb' _. lia.
+Qed.
+
+(* C09_tx_view_sound: slicing the serialised transaction (what the judge does with the implementation's bytes) yields
+   exactly the model's hashes, the structured witness-set fields 5 and 4 and the auxiliary-data bytes *)
+Theorem view_tx_sound other t :
+  other_ok other -> len (body_fields other t) < two64 ->
+  hash_ok (tx_script_data_hash t) -> hash_ok (tx_aux_data_hash t) ->
+  Forall (fun kv => item_wf (snd kv) = true) (ws_fields (tx_witness_set t)) ->
+  (match tx_aux t with Some a => item_wf (enc_aux a) = true | None => True end) ->
+  view_tx (tx_bytes other t) =
+  Ok (mk_tx_view (tx_script_data_hash t) (tx_aux_data_hash t)
+                 (assoc_field 5 (ws_fields (tx_witness_set t))) (assoc_field 4 (ws_fields (tx_witness_set t)))
+                 (match tx_aux t with Some a => Some (enc_aux a) | None => None end)).
+Proof.
+  intros Hother Hlen Hs Ha Hws Haux.
+  (* the body's fields are delimited *)
+  assert (Hbf : Forall field_ok (body_fields other t)).
+  { unfold body_fields. apply Forall_app. split.
+    - eapply Forall_impl; [|exact Hother]. intros kv [Hk [_ [_ Hw]]]. split; [exact Hk|apply item_wf_delim, Hw].
+    - apply Forall_app. split.
+      + destruct (tx_aux_data_hash t) as [h|]; [|constructor]. destruct Ha as [Hl Hok].
+        constructor; [|constructor]. split; [cbn; unfold two64; lia|apply delim_hash_field; assumption].
+      + destruct (tx_script_data_hash t) as [h|]; [|constructor]. destruct Hs as [Hl Hok].
+        constructor; [|constructor]. split; [cbn; unfold two64; lia|apply delim_hash_field; assumption]. }
+  (* so are the witness set's *)
+  destruct (ws_fields_keys (tx_witness_set t)) as [Hk Hl5].
+  assert (Hwf : Forall field_ok (ws_fields (tx_witness_set t))).
+  { rewrite Forall_forall in *. intros kv Hin. split; [apply Hk, Hin|apply item_wf_delim, Hws, Hin]. }
+  assert (Hwl : len (ws_fields (tx_witness_set t)) < two64) by (unfold len, two64; lia).
+  pose proof (delim_enc_fields _ Hbf Hlen) as Dbody.
+  pose proof (delim_enc_fields _ Hwf Hwl) as Dws.
+  assert (Dtrue : delim [245]).
+  { change [245] with (encode_item (ISimple 21)). intros rest. apply skip_item_encode. reflexivity. }
+  unfold view_tx, tx_bytes, array_slices.
+  change (decode_head ([132] ++ ?r)) with (Some (4, Arg 4, r)). cbn [N.eqb Pos.eqb].
+  change (N.to_nat 4) with 4%nat. cbn [item_slices].
+  fold (ws_bytes (tx_witness_set t)).
+  rewrite (Dbody _). cbn [bind]. unfold ws_bytes at 1. rewrite (Dws _). cbn [bind].
+  rewrite (Dtrue _). cbn [bind].
+  match goal with |- context [skip_item ?x] => assert (Daux0 : skip_item x = Ok (x, [])) end.
+  { destruct (tx_aux t) as [a|].
+    - pose proof (item_wf_delim _ Haux []) as D. rewrite app_nil_r in D. exact D.
+    - reflexivity. }
+  rewrite Daux0. cbn [bind is_nil].
+  change (4 =? 4) with true. cbv iota. cbn [bind].
+  rewrite (map_slices_fields _ Hbf Hlen). cbn [bind].
+  fold (ws_bytes (tx_witness_set t)). unfold ws_bytes. rewrite (map_slices_fields _ Hwf Hwl). cbn [bind].
+  rewrite !(field_slice_assoc _ _ Hbf), !(field_slice_assoc _ _ Hwf).
+  (* fields 11 and 7 of the body *)
+  assert (H11 : assoc_field 11 (body_fields other t) = match tx_script_data_hash t with Some h => Some (hash_field h) | None => None end).
+  { unfold body_fields. rewrite (assoc_app_none _ _ _ (other_no_key other 11 Hother (or_intror eq_refl))).
+    destruct (tx_aux_data_hash t); destruct (tx_script_data_hash t); reflexivity. }
+  assert (H7 : assoc_field 7 (body_fields other t) = match tx_aux_data_hash t with Some h => Some (hash_field h) | None => None end).
+  { unfold body_fields. rewrite (assoc_app_none _ _ _ (other_no_key other 7 Hother (or_introl eq_refl))).
+    destruct (tx_aux_data_hash t); destruct (tx_script_data_hash t); reflexivity. }
+  rewrite H11, H7.
+  assert (O1 : opt_hash (match tx_script_data_hash t with Some h => Some (hash_field h) | None => None end) = Ok (tx_script_data_hash t)).
+  { destruct (tx_script_data_hash t) as [h|]; [|reflexivity]. destruct Hs as [Hl _]. cbn [opt_hash]. rewrite (hash32_payload_field h Hl). reflexivity. }
+  assert (O2 : opt_hash (match tx_aux_data_hash t with Some h => Some (hash_field h) | None => None end) = Ok (tx_aux_data_hash t)).
+  { destruct (tx_aux_data_hash t) as [h|]; [|reflexivity]. destruct Ha as [Hl _]. cbn [opt_hash]. rewrite (hash32_payload_field h Hl). reflexivity. }
+  rewrite O1, O2. cbn [bind]. f_equal. f_equal.
+  destruct (tx_aux t) as [a|]; [|reflexivity].
+  pose proof (enc_aux_not_null a) as Hn.
+  destruct (enc_aux a) as [|x [|y r]].
+  - reflexivity.
+  - destruct x as [|p]; [reflexivity|].
+    do 8 (try (destruct p as [p|p|]; try reflexivity)). congruence.
+  - destruct x as [|p]; [reflexivity|].
+    do 8 (try (destruct p as [p|p|]; try reflexivity)).
+Qed.
+
+(* ================================================================== the judge accepts the model's transaction *)
+
+Lemma opt_bytes_eqb_refl o : opt_bytes_eqb o o = true.
+Proof. destruct o; [apply bytes_eqb_refl|reflexivity]. Qed.
+
+(* The judge of the correspondence run (ScriptDataSpec.judge_builder), applied to the bytes of the transaction the
+   model builds — with ANY other body fields — answers Holds on every history in which the hash was computed after
+   the last script item: the judge is exactly the conjunction of C09_same_bytes_history and C09_aux, read off the
+   bytes.  (On the implementation's bytes it therefore decides the property whenever model and code agree.) *)
+Theorem judge_builder_accepts_model (H : bytes -> bytes) ops cm before other t :
+  build_tx H (fst (run H builder_new ops)) = Ok t ->
+  last_calc_rev (rev ops) = Some (cm, before) ->
+  is_ok (calc_script_data_hash H (fst (run H builder_new (rev before))) cm) = true ->
+  has_script_items (fst (run H builder_new (rev before))) || is_none (b_script_data_hash (fst (run H builder_new (rev before)))) = true ->
+  other_ok other -> len (body_fields other t) < two64 ->
+  hash_ok (tx_script_data_hash t) -> hash_ok (tx_aux_data_hash t) ->
+  Forall (fun kv => item_wf (snd kv) = true) (ws_fields (tx_witness_set t)) ->
+  (match tx_aux t with Some a => item_wf (enc_aux a) = true | None => True end) ->
+  judge_builder H ops (tx_bytes other t) = Holds.
+Proof.
+  intros Hb Hl Hok Hprior Ho Hlen Hs Ha Hws Haux.
+  unfold judge_builder. rewrite (view_tx_sound other t Ho Hlen Hs Ha Hws Haux).
+  cbn [v_aux_hash v_aux v_script_data_hash v_redeemers v_datums].
+  rewrite (aux_hash H _ _ Hb), opt_bytes_eqb_refl. cbn [negb].
+  rewrite Hl, Hok, Hprior. cbn [andb].
+  rewrite (same_bytes_history H ops cm before t Hl Hok Hprior Hb), opt_bytes_eqb_refl. reflexivity.
+Qed.
